@@ -22,13 +22,16 @@ def run(prop, tier):
         if j["script"] == ("R", "R", "W") and not (acc.exists.get(j["name"], 0) & 1) and not acc.viols:
             acc.viols.append(dict(t="viol", p=prop, sig="readers-not-shared@%s" % j["name"].split("[")[1].split("]")[0], job=j["name"], replay="",
                                   desc="no explored schedule of two readers and a writer ever had both readers inside the lock at the same time: readers are not shared"))
+    extra = {}
+    if tier == "thorough" and not acc.viols:
+        extra = mcsched.conformance(acc, [j for j in jobs if j["args"][0] not in ("values", "barrier")])
     cov = mcsched.coverage(acc, "stateless DFS over all interleavings with <= 2 (quick) / 3 preemptions and <= 1 spurious condition wake-up (and every choice of the waiter a signal wakes) "
                                 "of 2-4 real threads running scripts over reader/writer lock, trylock, unlock on the real PRWLock, for the posix model (over the pthread rwlock model) and "
                                 "the general model (prwlock-general.c compiled in, over modelled mutex+condvars); oracles: shadow reader/writer counts at every entry, plain datum under the "
                                 "happens-before monitor, every thread finishes (deadlock / lost wake-up), trylock never waits for a holder, exists a schedule with two concurrent readers; "
                                 "non-trivial = executions in which a lock call had to wait or a trylock raced")
     return common.finish(prop, tier, "model_checking", acc, cov, mcsched.ASSUME + [
-        "the pthread rwlock model grants a read lock whenever no writer holds the lock (union of reader- and writer-preferring behaviours); harnesses never take read locks recursively"], t0)
+        "the pthread rwlock model grants a read lock whenever no writer holds the lock (union of reader- and writer-preferring behaviours); harnesses never take read locks recursively"], t0, extra=extra)
 
 
 replay = mcsched.replay
